@@ -3,7 +3,7 @@ from engine import *
 from facts import strip_generics, callee_of
 import sym
 
-CONFIGS_QUICK = ["F_all"]
+CONFIGS_QUICK = ["F_all", "F_nool"]  # every configuration whose cfg-gated code the property depends on
 CONFIGS_THOROUGH = ["F_all", "F_nool"]
 TECHNIQUE = 'static analysis: sink discipline (taint classes of every fmt::Write operand in se::*), validated-type typestate for XmlName with exact interval sets of the name classes, tag-pairing sequences, QuoteTarget inheritance, compile-fail witness'
 EXPLANATION = (
